@@ -91,6 +91,11 @@ CLAIMED = {
     design='5 C18',
     note='Trusted: RNG stub, prior stub, xarray object arrays, z3. Outside: the optimisation result table, running the samplers, arviz conversion; hierarchical pointwise evaluation is NotImplemented in chi.',
     technique='symbolic execution with RNG/prior stubs + term inspection + SMT decisions of per-entry laws'),
+ 'C17': dict(
+    text='CrossHair (symbolic execution of Python with z3) on contract functions generated per run: the bodies build the real chi objects from symbolic small integers (sub-model kinds, dimensions, numbers of individuals before/after set_n_ids, fixed-parameter masks, covariate selections, numbers of outputs / times / simulated individuals) and require n_parameters = number of names = length of IDs = accepted vector length = gradient length, IDs marking exactly the individual-level entries, distinct names with IDs, sub-model names in documented order; "Confirmed over all paths" for every condition is the exhaustive verdict for the stated ranges; each body has a reachability twin.',
+    design='5 C17',
+    note='Trusted: CrossHair 0.0.110 path exhaustion ("Confirmed over all paths") + z3; integers are realised by branching so that one path = one configuration and the body then runs untraced. Ranges: kinds 7, dims 1-2, n_ids 1-2 (3), 2 (3) sub-models, masks < 8 (32), selections < 16.',
+    technique='CrossHair symbolic execution over small symbolic integers with generated pre/post contracts'),
 }
 
 NOT_APPLICABLE = {
